@@ -1,4 +1,5 @@
 """C08 - string metrics return true (weighted) edit distances in SciPy layout."""
+import collections
 import itertools
 import numpy as np
 import pandas as pd
@@ -6,20 +7,93 @@ import gens
 from gens import all_strings
 from core import call_impl
 
+# containers a "collection of strings" may arrive in.  Sized ones are accepted by the metric classes and the functional helpers,
+# the one-shot ones only by the functional helpers (documented "iterable of strings", they copy into a list first).
+SIZED_KINDS = ['list', 'tuple', 'ndarray', 'ndarray_U', 'series', 'series_shifted', 'series_permuted', 'series_gapped',
+               'series_str', 'series_dup', 'index', 'deque']
+ONESHOT_KINDS = ['iterator', 'generator']
+
+
+def cont(rng, kind, xs):
+    """-> (container holding xs in this order, printable description). Position decides, never the pandas label."""
+    xs = list(xs)
+    m = len(xs)
+    idx = None
+    if kind == 'list':
+        c = list(xs)
+    elif kind == 'tuple':
+        c = tuple(xs)
+    elif kind == 'ndarray':
+        c = np.empty(m, dtype=object)
+        c[:] = xs
+    elif kind == 'ndarray_U':
+        c = np.array(xs, dtype=str)
+    elif kind == 'iterator':
+        c = iter(list(xs))
+    elif kind == 'generator':
+        c = (x for x in list(xs))
+    elif kind == 'index':
+        c = pd.Index(xs, dtype=object)
+    elif kind == 'deque':
+        c = collections.deque(xs)
+    elif kind == 'series':
+        idx = None
+        c = pd.Series(xs, dtype=object)
+    elif kind == 'series_shifted':
+        k = rng.randint(1, 9)
+        idx = list(range(k, k + m))
+    elif kind == 'series_permuted':                # labels are a permutation of 0..m-1 (after sort_values / sample)
+        idx = list(range(m))
+        for _ in range(8):
+            rng.shuffle(idx)
+            if m < 2 or idx != list(range(m)):
+                break
+    elif kind == 'series_gapped':                  # after row filtering: gaps, any order, negative labels
+        idx = rng.sample(range(-4, 3 * m + 6), m)
+        if rng.random() < 0.5:
+            idx.sort()
+    elif kind == 'series_str':
+        idx = ['k%d' % i for i in range(m)]
+        rng.shuffle(idx)
+    elif kind == 'series_dup':                     # after concat: repeated labels
+        idx = [i // 2 for i in range(m)] if rng.random() < 0.5 else [0] * m
+    else:
+        raise ValueError(kind)
+    if idx is not None:
+        c = pd.Series(xs, index=idx, dtype=object)
+    return c, (kind if idx is None else '%s(index=%s)' % (kind, idx))
+
+
+def _show(xs, n=14):
+    """strings for a message: long ones cut, with their length (the replay file holds them in full)"""
+    return [x if len(x) <= n else '%s...<len %d>' % (x[:n], len(x)) for x in xs]
+
+
+def _shape_eq(g, exp_shape, exp):
+    if g[0] != 'ok':
+        return False
+    a = np.asarray(g[1])
+    return a.shape == exp_shape and np.array_equal(a.astype(np.float64).reshape(exp_shape), np.array(exp, dtype=np.float64).reshape(exp_shape))
+
 
 def run(ctx):
     import pyrepseq.distance as ds
     from pyrepseq.metric import Levenshtein, WeightedLevenshtein
     from rapidfuzz.distance import Levenshtein as RL, Hamming as RH
     import Levenshtein as PL
+    import scipy.spatial.distance as ssd
     rng = ctx.rng
     ctx.rule = ('(a) foundation tie: rapidfuzz Levenshtein.distance (plain / weights / score_cutoff), Hamming.distance, python-Levenshtein '
-                'distance against the proved DP for ALL pairs of strings of length <= L on 2 letters and <= L-2 on 3 letters, plus random '
-                'pairs of length 0..400 on 1-, 2-, 4-, 20-, 1000-letter alphabets incl. non-BMP code points; (b) Levenshtein / '
-                'WeightedLevenshtein calc_cdist_matrix and calc_pdist_vector on collections of 0..12 strings as list / tuple / ndarray / '
-                'Series, asymmetric weight triples from {1,2,3,5,7,11}; (c) functional pdist / cdist with metric callables that encode '
-                'their two arguments injectively and take extra keyword arguments. non-trivial := distance > 0 and (weights asymmetric or '
-                'lengths differ)')
+                'distance (plain / weights / score_cutoff) against the proved DP for ALL pairs of strings of length <= L on 2 letters and '
+                '<= L-2 on 3 letters, plus random pairs of length 0..400 on 1-, 2-, 4-, 20-, 1000-letter alphabets incl. non-BMP code points; '
+                '(b) Levenshtein / WeightedLevenshtein calc_cdist_matrix and calc_pdist_vector on collections of 0..12 strings; every '
+                'collection is evaluated by SEVERAL metric objects (fresh and re-used ones, different weight triples incl. the ins/del swap, '
+                'asymmetric triples from {1,2,3,5,7,11}) in shuffled order with repeats, followed by permuted / edited variants of the same '
+                'collection, each call with its own container (list / tuple / ndarray object+str / Series with default, shifted, permuted, '
+                'gapped, string, repeated index / pandas Index / deque); (c) functional pdist / cdist, for every container above plus '
+                'iterator / generator on either argument: metric callables that encode their two arguments injectively and take extra '
+                'keyword arguments, and the DEFAULT metric with the keyword arguments its scorer accepts (weights, score_cutoff, score_hint, '
+                'processor) against api_pdist_wlev / api_cdist_wlev. non-trivial := distance > 0 and (weights asymmetric or lengths differ)')
     L = 4 if ctx.quick else 6
     univ = all_strings('AC', L) + all_strings('ACD', L - 2)
     pairs = list(itertools.product(univ, univ))
@@ -47,18 +121,28 @@ def run(ctx):
         ctx.case(sample=dict(a=a[:20], b=b[:20], weights=w, model=o) if nt and n % 400 == 0 else None,
                  nontrivial_key=('wlev', a, b, w) if nt else None)
         ctx.count('len<=6' if max(len(a), len(b)) <= 6 else ('len<=150' if max(len(a), len(b)) <= 150 else 'len>150'))
-        vals = {}
+        vals, aux = {}, {}
+        c = rng.randint(0, 6) if w == (1, 1, 1) else rng.randint(0, 40)
+        clamp = o if o <= c else c + 1
         if w == (1, 1, 1):
             vals['rapidfuzz'] = call_impl(RL.distance, a, b)
             vals['python-Levenshtein'] = call_impl(PL.distance, a, b)
-            c = rng.randint(0, 6)
             vals['rapidfuzz[cutoff=%d]' % c] = call_impl(lambda: (lambda v: v if v <= c else o)(RL.distance(a, b, score_cutoff=c)))
+            aux['python-Levenshtein[score_cutoff=%d]' % c] = call_impl(PL.distance, a, b, score_cutoff=c)
         else:
             vals['rapidfuzz[weights]'] = call_impl(RL.distance, a, b, weights=w)
+            vals['python-Levenshtein[weights]'] = call_impl(PL.distance, a, b, weights=w)
+            aux['python-Levenshtein[weights,score_cutoff=%d]' % c] = call_impl(PL.distance, a, b, weights=w, score_cutoff=c)
         for name, g in vals.items():
             if g[0] != 'ok' or int(g[1]) != o:
                 ctx.violation('property', '%s distance(%r, %r, weights=%s) = %s but the optimal alignment cost is %d' % (name, a[:30], b[:30], w, g, o),
                               dict(a=a, b=b, weights=w, impl=str(g), expected=o), site='metric.foundation[%s]' % name.split('[')[0])
+        for name, g in aux.items():
+            # contract of the default scorer of the functional helpers: distances above score_cutoff are reported as score_cutoff + 1
+            if g[0] != 'ok' or int(g[1]) != clamp:
+                ctx.violation('correspondence', '%s distance(%r, %r, weights=%s) = %s, the documented clamp of the optimal cost %d is %d' %
+                              (name, a[:30], b[:30], w, g, o, clamp), dict(a=a, b=b, weights=w, score_cutoff=c, impl=str(g), expected=clamp),
+                              site='metric.foundation[python-Levenshtein.score_cutoff]')
         if n < 400:
             h = houts[n]
             if len(a) == len(b):
@@ -69,7 +153,23 @@ def run(ctx):
             ctx.add_vm('api_wlev', reqs[n][1], o)
         if len(ctx.violations) > 6:
             return
-    # (b) metric classes
+
+    # ------------------------------------------------------------------ (b) metric classes
+    def extra_weights(w):
+        """further weight triples for the same collection (cheap for the model: short strings only)"""
+        out = []
+        for _ in range(rng.randint(1, 3)):
+            r = rng.random()
+            if r < 0.3:
+                out.append((1, 1, 1))
+            elif r < 0.5:
+                out.append((w[1], w[0], w[2]))            # insertion / deletion swapped
+            elif r < 0.6:
+                out.append(tuple(rng.sample(w, 3)))      # same multiset of weights
+            else:
+                out.append(tuple(rng.choice(W) for _ in range(3)))
+        return out
+
     colls = []
     for _ in range(40 if ctx.quick else 500):
         m = rng.randint(0, 12)
@@ -85,60 +185,132 @@ def run(ctx):
         w = (1, 1, 1) if (big or (rng.random() < 0.4 and not mid)) else tuple(rng.choice(W) for _ in range(3))
         if mid and max(w) == 1:
             w = (2, 2, 3)
-        ctx.count('collection_long_weighted' if mid else ('collection_long_unit' if big else 'collection_short'))
-        colls.append((xs, ys, w))
-    reqs = []
-    for xs, ys, w in colls:
-        reqs += [('api_cdist_wlev', [w[0], w[1], w[2], xs, ys]), ('api_pdist_wlev', [w[0], w[1], w[2], xs])]
+        tag = 'collection_long_weighted' if mid else ('collection_long_unit' if big else 'collection_short')
+        ctx.count(tag)
+        # the model is slow on long strings (unary nat): long collections get the unit weights as the only other triple
+        ws = [w] + ([(1, 1, 1)] if (big or mid) else extra_weights(w))
+        colls.append(dict(xs=xs, ys=ys, ws=ws, tag=tag, derived=None))
+        if not (big or mid):
+            # variants of the same collection right afterwards (same strings in another order / one string edited / other partner)
+            for _ in range(rng.choice([0, 0, 1, 1, 2])):
+                how = rng.choice(['permuted', 'edited', 'other_B', 'other_A', 'prefix'])
+                xs2, ys2 = list(xs), list(ys)
+                if how == 'permuted':
+                    rng.shuffle(xs2)
+                    rng.shuffle(ys2)
+                elif how == 'edited' and xs2:
+                    k = rng.randrange(len(xs2))
+                    xs2[k] = gens.mutate(rng, xs2[k], al, rng.randint(1, 3))
+                elif how == 'other_B':
+                    ys2 = [''.join(rng.choice(al) for _ in range(rng.randint(0, 9))) for _ in range(len(ys))]
+                elif how == 'other_A':
+                    xs2 = [''.join(rng.choice(al) for _ in range(rng.randint(0, 12))) for _ in range(len(xs))]
+                elif how == 'prefix':
+                    xs2 = xs2[:rng.randint(0, len(xs2))]
+                ctx.count('collection_variant_' + how)
+                colls.append(dict(xs=xs2, ys=ys2, ws=list(ws) if rng.random() < 0.7 else [ws[0]] + extra_weights(ws[0]), tag=tag, derived=how))
+    reqs, where = [], {}
+    for n, c in enumerate(colls):
+        for w in dict.fromkeys(c['ws']):
+            where[(n, w)] = len(reqs)
+            reqs += [('api_cdist_wlev', [w[0], w[1], w[2], c['xs'], c['ys']]), ('api_pdist_wlev', [w[0], w[1], w[2], c['xs']])]
     outs = ctx.oracle.run_parallel(reqs, nproc=12)
 
-    def cont(kind, xs):
-        return {'list': list(xs), 'tuple': tuple(xs), 'ndarray': np.array(xs, dtype=object) if xs else np.array(xs, dtype=object),
-                'series': pd.Series(list(xs), index=range(3, 3 + len(xs)), dtype=object)}[kind]
-    for n, (xs, ys, w) in enumerate(colls):
-        cd, pd_ = outs[2 * n], outs[2 * n + 1]
-        metric = (Levenshtein() if rng.random() < 0.5 else WeightedLevenshtein()) if w == (1, 1, 1) else WeightedLevenshtein(*w)
-        kind = rng.choice(['list', 'tuple', 'ndarray', 'series'])
-        nt = any(v > 0 for row in cd for v in row) and len(xs) >= 2
-        ctx.count('container=' + kind)
-        ctx.case(sample=dict(metric=type(metric).__name__, weights=w, A=[x[:10] for x in xs[:4]], B=[y[:10] for y in ys[:4]]) if nt and n % 20 == 0 else None,
-                 nontrivial_key=('cdist', tuple(xs), tuple(ys), w) if nt else None)
-        if xs and ys:
-            g = call_impl(metric.calc_cdist_matrix, cont(kind, xs), cont(kind, ys))
-            ok = g[0] == 'ok' and np.asarray(g[1]).shape == (len(xs), len(ys)) and np.array_equal(np.asarray(g[1], dtype=np.float64), np.array(cd, dtype=np.float64))
-            if not ok:
-                ctx.violation('property', '%s%s.calc_cdist_matrix differs from the optimal alignment costs on A=%s B=%s: %s' %
-                              (type(metric).__name__, w, [x[:12] for x in xs], [y[:12] for y in ys], str(g)[:300]),
-                              dict(A=xs, B=ys, weights=w, container=kind), site='metric.calc_cdist_matrix')
-        if len(xs) >= 1:
-            g = call_impl(metric.calc_pdist_vector, cont(kind, xs))
-            ok = g[0] == 'ok' and np.asarray(g[1]).shape == (len(pd_),) and np.array_equal(np.asarray(g[1], dtype=np.float64), np.array(pd_, dtype=np.float64))
-            if not ok:
-                ctx.violation('property', '%s%s.calc_pdist_vector is not the condensed upper triangle on %s: %s' %
-                              (type(metric).__name__, w, [x[:12] for x in xs], str(g)[:300]), dict(X=xs, weights=w, container=kind),
-                              site='metric.calc_pdist_vector')
-            if g[0] == 'ok' and len(xs) >= 2:
-                import scipy.spatial.distance as ssd
-                sq = call_impl(ssd.squareform, np.asarray(g[1]))
-                if sq[0] != 'ok' or np.asarray(sq[1]).shape != (len(xs), len(xs)):
-                    ctx.violation('property', 'calc_pdist_vector output is not a valid squareform input', dict(X=xs), site='metric.calc_pdist_vector')
-        if len(ctx.violations) > 6:
-            return
-    # (c) functional helpers with injective metric callables
-    for t in range(40 if ctx.quick else 400):
+    pool = {}
+
+    def get_metric(w):
+        """a metric object with these weights: a re-used one (state carried over from other collections) or a fresh one"""
+        if w in pool and rng.random() < 0.5:
+            return pool[w]
+        if w == (1, 1, 1):
+            obj = rng.choice([Levenshtein, WeightedLevenshtein, lambda: WeightedLevenshtein(1, 1, 1)])()
+        else:
+            obj = WeightedLevenshtein(*w)
+        pool[w] = obj
+        return obj
+
+    kinds_b = list(SIZED_KINDS)
+    for n, c in enumerate(colls):
+        xs, ys = c['xs'], c['ys']
+        objs = [(w, get_metric(w)) for w in c['ws']]
+        calls = [(k, op) for k in range(len(objs)) for op in ('pdist', 'cdist')]
+        rng.shuffle(calls)
+        calls += [rng.choice(calls) for _ in range(rng.randint(1, 3))]        # ... A B A: an earlier object again after the others
+        cd0 = outs[where[(n, c['ws'][0])]]
+        nt = any(v > 0 for row in cd0 for v in row) and len(xs) >= 2
+        ctx.case(sample=dict(metrics=['%s%s' % (type(o).__name__, w) for w, o in objs], A=[x[:10] for x in xs[:4]], B=[y[:10] for y in ys[:4]],
+                             variant_of_previous=c['derived']) if nt and n % 20 == 0 else None,
+                 nontrivial_key=('cdist', tuple(xs), tuple(ys), tuple(c['ws'])) if nt else None)
+        ctx.count('metric_objects_per_collection=%d' % len(objs))
+        history = []
+        for k, op in calls:
+            w, metric = objs[k]
+            cd, pd_ = outs[where[(n, w)]], outs[where[(n, w)] + 1]
+            label = '%s%s#%d' % (type(metric).__name__, w, k)
+            kx, ky = rng.choice(kinds_b), rng.choice(kinds_b)
+            ctx.count('container=' + kx)
+            if op == 'cdist':
+                (ca, da), (cb, db) = cont(rng, kx, xs), cont(rng, ky, ys)
+                g = call_impl(metric.calc_cdist_matrix, ca, cb)
+                if not _shape_eq(g, (len(xs), len(ys)), cd):
+                    ctx.violation('property', '%s.calc_cdist_matrix(%s, %s) differs from the optimal alignment costs on A=%s B=%s: %s (expected %s); earlier calls on '
+                                  'this collection: %s' % (label, da, db, _show(xs), _show(ys), str(g)[:300], str(cd)[:200], history or 'none'),
+                                  dict(A=xs, B=ys, weights=w, containerA=da, containerB=db, earlier_calls=list(history), variant_of_previous=c['derived']),
+                                  site='metric.calc_cdist_matrix')
+                history.append('%s.calc_cdist_matrix(%s, %s)' % (label, kx, ky))
+            else:
+                ca, da = cont(rng, kx, xs)
+                g = call_impl(metric.calc_pdist_vector, ca)
+                if not _shape_eq(g, (len(pd_),), pd_):
+                    ctx.violation('property', '%s.calc_pdist_vector(%s) is not the condensed upper triangle of the optimal alignment costs on %s: %s (expected %s); '
+                                  'earlier calls on this collection: %s' % (label, da, _show(xs), str(g)[:300], str(pd_)[:200], history or 'none'),
+                                  dict(X=xs, weights=w, container=da, earlier_calls=list(history), variant_of_previous=c['derived']),
+                                  site='metric.calc_pdist_vector')
+                if g[0] == 'ok' and len(xs) >= 2:
+                    sq = call_impl(ssd.squareform, np.asarray(g[1]))
+                    if sq[0] != 'ok' or np.asarray(sq[1]).shape != (len(xs), len(xs)):
+                        ctx.violation('property', 'calc_pdist_vector output is not a valid squareform input', dict(X=xs), site='metric.calc_pdist_vector')
+                history.append('%s.calc_pdist_vector(%s)' % (label, kx))
+            if len(ctx.violations) > 6:
+                return
+
+    # ------------------------------------------------------------------ (c) functional helpers
+    kinds_c = SIZED_KINDS + ONESHOT_KINDS
+
+    def call_helper(fn, args, metric, dtype, kw):
+        """the same call in one of its spellings (metric / dtype positional or by keyword or left out)"""
+        style = rng.choice(['kw', 'pos', 'omit']) if metric is None and dtype is None else rng.choice(['kw', 'pos'])
+        if style == 'omit':
+            return call_impl(lambda: fn(*args, **kw))
+        if style == 'pos' and dtype is not None:
+            return call_impl(lambda: fn(*args, metric, dtype, **kw))
+        extra = {} if dtype is None else dict(dtype=dtype)
+        return call_impl(lambda: fn(*args, metric=metric, **extra, **kw))
+
+    # (c1) injective metric callables: any index permutation / label lookup / dropped keyword argument is visible
+    for t in range(120 if ctx.quick else 1500):
         m, mb = rng.randint(0, 9), rng.randint(0, 6)
         xs = ['s%d' % i for i in range(m)]
         ys = ['t%d' % i for i in range(mb)]
-        ident = {s: i for i, s in enumerate(xs + ys)}
-        off = rng.randint(0, 5)
+        rng.shuffle(xs)
+        ident = {s: i for i, s in enumerate(sorted(xs) + sorted(ys))}
 
-        def f(a, b, offset=0, scale=1):
-            return scale * (1000 * ident[a] + ident[b]) + offset
-        kw = dict(offset=off, scale=rng.choice([1, 2])) if t % 2 else {}
-        g = call_impl(lambda: ds.pdist(iter(xs), metric=f, dtype=np.int64, **kw))
+        def f(a, b, offset=0, scale=1, **more):
+            return scale * (1000 * ident[str(a)] + ident[str(b)]) + offset + 100000 * sum(more.values())
+        kw = {}
+        if t % 2:
+            for name, lo, hi in [('offset', 0, 5), ('scale', 1, 3), ('gap', 1, 4), ('weights', 1, 4), ('score_cutoff', 1, 4)]:
+                if rng.random() < 0.4:
+                    kw[name] = rng.randint(lo, hi)
+        kx, ka, kb = rng.choice(kinds_c), rng.choice(kinds_c), rng.choice(kinds_c)
+        ctx.count('helper_container=' + kx)
+        ctx.count('helper_container=' + ka)
+        ctx.count('helper_container=' + kb)
+        cx, dx = cont(rng, kx, xs)
+        g = call_helper(ds.pdist, (cx,), f, np.int64, kw)
         exp = [f(xs[i], xs[j], **kw) for i in range(m) for j in range(i + 1, m)]
-        ctx.case(nontrivial_key=('pdist', m, mb, off, bool(kw)) if m >= 3 else None)
-        ok = g[0] == 'ok' and [int(v) for v in g[1]] == exp
+        ctx.case(nontrivial_key=('pdist', m, mb, tuple(sorted(kw.items())), kx, ka, kb) if m >= 3 else None)
+        ok = g[0] == 'ok' and np.asarray(g[1]).shape == (len(exp),) and [int(v) for v in g[1]] == exp
         if ok and m >= 2:
             # the documented index formula, via the model
             i = rng.randrange(m - 1)
@@ -146,20 +318,140 @@ def run(ctx):
             k = ctx.oracle.run([('api_cidx', [m, i, j])])[0]
             ok = int(g[1][k]) == f(xs[i], xs[j], **kw)
         if not ok:
-            ctx.violation('property', 'pdist with an injective metric callable / kwargs %s has the wrong layout: %s, expected %s' % (kw, str(g)[:200], exp[:10]),
-                          dict(m=m, kwargs=kw), site='distance.pdist')
-        g = call_impl(lambda: ds.cdist(tuple(xs), pd.Series(ys, index=range(7, 7 + mb), dtype=object), metric=f, dtype=np.int64, **kw))
+            ctx.violation('property', 'pdist(%s of %s, metric=f, dtype=int64, **%s) with the injective callable f(a, b) = scale*(1000*id(a)+id(b))+offset+1e5*sum(other kwargs) '
+                          '(id = rank of the string) is not the condensed layout / does not forward the keyword arguments: %s, expected %s' %
+                          (dx, xs, kw, str(g)[:200], exp[:12]), dict(X=xs, container=dx, kwargs=kw), site='distance.pdist')
+        (ca, da), (cb, db) = cont(rng, ka, xs), cont(rng, kb, ys)
+        g = call_helper(ds.cdist, (ca, cb), f, np.int64, kw)
         exp2 = [[f(a, b, **kw) for b in ys] for a in xs]
-        if g[0] != 'ok' or np.asarray(g[1]).shape != (m, mb) or np.asarray(g[1]).tolist() != exp2 and m * mb > 0:
-            ctx.violation('property', 'cdist with an injective metric callable has the wrong layout: %s' % str(g)[:200], dict(m=m, mb=mb, kwargs=kw), site='distance.cdist')
-    # default metric of the helpers
+        if g[0] != 'ok' or np.asarray(g[1]).shape != (m, mb) or (m * mb > 0 and np.asarray(g[1]).tolist() != exp2):
+            ctx.violation('property', 'cdist(%s of %s, %s of %s, metric=f, dtype=int64, **%s) with the injective callable f is not [[f(a, b) for b in B] for a in A] '
+                          '/ does not forward the keyword arguments: %s, expected %s' % (da, xs, db, ys, kw, str(g)[:200], str(exp2)[:200]),
+                          dict(A=xs, B=ys, containerA=da, containerB=db, kwargs=kw), site='distance.cdist')
+        if len(ctx.violations) > 6:
+            return
+
+    # (c2) the default metric (python-Levenshtein distance) with the keyword arguments it accepts; model: api_pdist_wlev / api_cdist_wlev
+    procs = {'reverse': lambda s: s[::-1], 'drop_first': lambda s: s[1:], 'upper': lambda s: s.upper()}
+
+    def shrink_default(which, xs, ys, kw, procname, g, exp):
+        """cheap shrink of a failing default-metric call: one pair of strings in plain lists, one keyword argument if that suffices"""
+        if which == 'cdist':
+            cand = [(a, b) for a in xs for b in ys]
+            flat = [v for row in exp for v in row]
+        else:
+            cand = [(xs[i], xs[j]) for i in range(len(xs)) for j in range(i + 1, len(xs))]
+            flat = list(exp)
+        got = [float(v) for v in np.asarray(g[1]).ravel()] if g[0] == 'ok' and np.asarray(g[1]).size == len(flat) else None
+        if got is not None:
+            cand = [c_ for c_, u, v in zip(cand, got, flat) if u != v] + cand
+        subsets = [{k: kw[k]} for k in kw if len(kw) > 1] + [dict(kw)]
+        for a, b in cand[:6]:
+            for sub in subsets:
+                p = (procs.get(procname) if 'processor' in sub else None) or (lambda s_: s_)
+                w = sub.get('weights') or (1, 1, 1)
+                cut = sub.get('score_cutoff')
+                v = ctx.oracle.run([('api_wlev', [w[0], w[1], w[2], p(a), p(b)])])[0]
+                v = v if cut is None or v <= cut else cut + 1
+                if which == 'cdist':
+                    r = call_impl(lambda: ds.cdist([a], [b], dtype=np.int64, **sub))
+                    ok = _shape_eq(r, (1, 1), [[v]])
+                else:
+                    r = call_impl(lambda: ds.pdist([a, b], dtype=np.int64, **sub))
+                    ok = _shape_eq(r, (1,), [v])
+                if not ok:
+                    show = {k: (procname if k == 'processor' else x) for k, x in sub.items()}
+                    call = ('cdist([%r], [%r], dtype=int64, **%s)' if which == 'cdist' else 'pdist([%r, %r], dtype=int64, **%s)') % (a, b, show)
+                    return dict(call=call, got=str(r)[:120], expected=v, a=a, b=b, kwargs=show)
+        return None
+
+    cases = []
+    for t in range(70 if ctx.quick else 900):
+        al = rng.choice(['AC', 'ACGT', gens.AA, 'aAcCgG'])
+        m, mb = rng.randint(0, 8), rng.randint(0, 6)
+        wide = rng.random() < 0.12                  # distances above 255: a dtype wider than the default uint8 is requested
+        xs = [''.join(rng.choice(al) for _ in range(rng.randint(36, 50) if wide and i < 2 else rng.randint(0, 10))) for i in range(m)]
+        short = [x for x in xs if len(x) <= 10]
+        ys = [gens.mutate(rng, rng.choice(short), al, rng.randint(0, 3)) if short and rng.random() < 0.6 else ''.join(rng.choice(al) for _ in range(rng.randint(0, 9)))
+              for _ in range(mb)]
+        if wide and ys:
+            ys[0] = ''.join(rng.choice(al) for _ in range(rng.randint(36, 50)))
+        kw, w, cut, proc = {}, (1, 1, 1), None, None
+        variant = rng.choice(['none', 'weights', 'weights', 'weights', 'score_cutoff', 'weights+score_cutoff', 'weights+score_hint', 'processor', 'weights+processor',
+                              'weights=None'])
+        if wide:
+            variant = 'weights'
+        if 'weights' in variant and variant != 'weights=None':
+            w = tuple(rng.choice([7, 11]) for _ in range(3)) if wide else tuple(rng.choice(W) for _ in range(3))
+            if w == (1, 1, 1):
+                w = (1, 2, 1)
+            kw['weights'] = w
+        if variant == 'weights=None':
+            kw['weights'] = None
+        if 'score_cutoff' in variant:
+            cut = rng.randint(0, 4 * max(w))
+            kw['score_cutoff'] = cut
+        if 'score_hint' in variant:
+            kw['score_hint'] = rng.randint(0, 10)
+        if 'processor' in variant:
+            proc = rng.choice(sorted(procs) + ['None'])
+            kw['processor'] = procs.get(proc)
+        ctx.count('default_metric_kwargs=' + variant)
+        cases.append(dict(xs=xs, ys=ys, kw=kw, w=w, cut=cut, proc=proc, variant=variant))
+    reqs = []
+    for c in cases:
+        p = procs.get(c['proc']) or (lambda s: s)
+        w = c['w']
+        reqs += [('api_cdist_wlev', [w[0], w[1], w[2], [p(x) for x in c['xs']], [p(y) for y in c['ys']]]),
+                 ('api_pdist_wlev', [w[0], w[1], w[2], [p(x) for x in c['xs']]])]
+    outs = ctx.oracle.run_parallel(reqs, nproc=12)
+    for n, c in enumerate(cases):
+        xs, ys, kw, cut = c['xs'], c['ys'], c['kw'], c['cut']
+        clamp = (lambda v: v) if cut is None else (lambda v: v if v <= cut else cut + 1)
+        cd = [[clamp(v) for v in row] for row in outs[2 * n]]
+        pd_ = [clamp(v) for v in outs[2 * n + 1]]
+        top = max([0] + pd_ + [v for row in cd for v in row])
+        dtype = rng.choice([np.uint16, np.int64, np.float64]) if top > 255 else rng.choice([None, None, np.uint8, np.int32, np.int64, np.float64])
+        kwshow = {k: (c['proc'] if k == 'processor' else v) for k, v in kw.items()}
+        kx, ka, kb = rng.choice(kinds_c), rng.choice(kinds_c), rng.choice(kinds_c)
+        for k_ in (kx, ka, kb):
+            ctx.count('helper_container=' + k_)
+        nt = any(v > 0 for v in pd_) and len(xs) >= 2 and bool(kw)
+        ctx.case(sample=dict(A=xs[:4], B=ys[:4], kwargs=kwshow, pdist_model=pd_[:6]) if nt and n % 25 == 0 else None,
+                 nontrivial_key=('default', tuple(xs), tuple(ys), str(kwshow)) if nt else None)
+        cx, dx = cont(rng, kx, xs)
+        g = call_helper(ds.pdist, (cx,), None, dtype, kw)
+        if not _shape_eq(g, (len(pd_),), pd_):
+            sh = shrink_default('pdist', xs, ys, kw, c['proc'], g, pd_)
+            ctx.violation('property', '%spdist(%s of %s, dtype=%s, **%s) with the default metric: the keyword arguments must reach the Levenshtein scorer / condensed layout; '
+                          'got %s, the optimal alignment costs (weights %s%s) are %s' %
+                          ('' if sh is None else '%s = %s but the optimal alignment cost is %s; found as ' % (sh['call'], sh['got'], sh['expected']),
+                           dx, xs, getattr(dtype, '__name__', dtype), kwshow, str(g)[:300], c['w'], '' if cut is None else ', reported as cutoff+1 above %d' % cut, pd_),
+                          dict(X=xs, container=dx, kwargs=kwshow, dtype=str(dtype), expected=pd_, smallest=sh), site='distance.pdist[default metric]')
+        (ca, da), (cb, db) = cont(rng, ka, xs), cont(rng, kb, ys)
+        g = call_helper(ds.cdist, (ca, cb), None, dtype, kw)
+        if not _shape_eq(g, (len(xs), len(ys)), cd):
+            sh = shrink_default('cdist', xs, ys, kw, c['proc'], g, cd)
+            ctx.violation('property', '%scdist(%s of %s, %s of %s, dtype=%s, **%s) with the default metric: the keyword arguments must reach the Levenshtein scorer; got %s, '
+                          'the optimal alignment costs (weights %s%s) are %s' %
+                          ('' if sh is None else '%s = %s but the optimal alignment cost is %s; found as ' % (sh['call'], sh['got'], sh['expected']),
+                           da, xs, db, ys, getattr(dtype, '__name__', dtype), kwshow, str(g)[:300], c['w'], '' if cut is None else ', reported as cutoff+1 above %d' % cut, cd),
+                          dict(A=xs, B=ys, containerA=da, containerB=db, kwargs=kwshow, dtype=str(dtype), expected=cd, smallest=sh),
+                          site='distance.cdist[default metric]')
+        if n % 12 == 0 and c['proc'] in (None, 'None') and sum(map(len, xs)) < 60:
+            ctx.add_vm('api_pdist_wlev', [c['w'][0], c['w'][1], c['w'][2], xs], outs[2 * n + 1])
+        if len(ctx.violations) > 6:
+            return
+    # default metric of the helpers, fixed example
     xs = ['CASSF', 'CASF', 'CAWSF', '']
     o = ctx.oracle.run([('api_pdist_wlev', [1, 1, 1, xs])])[0]
     g = call_impl(ds.pdist, xs)
     if g[0] != 'ok' or [int(v) for v in g[1]] != o:
         ctx.violation('property', 'pdist default metric is not Levenshtein: %s vs %s' % (g, o), dict(X=xs), site='distance.pdist')
     ctx.assumptions += ['result dtypes of rapidfuzz process.cdist (uint32 for the C scorer, float32 for a Python-lambda scorer): exact below 2^32 / 2^24 (C08_bounded)',
-                        'scipy squareform(checks=False) takes the strict upper triangle row-major (modelled, exercised)']
+                        'scipy squareform(checks=False) takes the strict upper triangle row-major (modelled, exercised)',
+                        'python-Levenshtein distance(score_cutoff=c) reports c+1 for distances above c; processor= is applied to both strings first '
+                        '(contract of the default scorer of pdist / cdist, tied by correspondence)']
 
 
 def replay(ctx, obj):
